@@ -95,12 +95,14 @@ def joint_from_factors(mdist, cdists, strict=True):
         cdist_mask.extend([False] * cdists[0].outcome_length())
 
     # Make sure mdist has the proper number of outcomes.
-    YgX_pmf = cdist_array(cdists)
-    if len(mdist) != YgX_pmf.shape[0]:
+    # One row per conditional; the rows may have different lengths when the
+    # conditionals are sparse and their supports differ.
+    YgX_pmf = [copypmf(d, base='linear', mode='asis') for d in cdists]
+    if len(mdist) != len(YgX_pmf):
         # Maybe it is not trim.
         mdist = mdist.copy(base='linear')
         mdist.make_sparse()
-        if len(mdist) != YgX_pmf.shape[0]:
+        if len(mdist) != len(YgX_pmf):
             msg = 'len(mdist) != len(cdists)'
             raise ditException(msg)
         else:
@@ -116,7 +118,7 @@ def joint_from_factors(mdist, cdists, strict=True):
         X_pmf = copypmf(mdist, base='linear', mode='asis')
 
     # The joint probabilities
-    XY_pmf = YgX_pmf * X_pmf[:, np.newaxis]
+    XY_pmf = np.concatenate([row * x for row, x in zip(YgX_pmf, X_pmf)])
 
     ctor = cdists[0]._outcome_ctor
     # We can't use NumPy for the outcomes, since an array of tuples is
